@@ -153,8 +153,30 @@ def run_check(pid: str, tier: str, seed: int, replay: str | None = None) -> int:
     except HarnessError as e:
         print(f"[{pid}] harness error: {e}")
         return 2
-    except Exception:
+    except Exception as e:
         traceback.print_exc()
+        # an exception that comes out of the implementation itself (a frame inside the mosaik package under test) where the harness
+        # expects none is an observation about the code, not a harness failure: the property is no longer shown to hold
+        src = os.path.realpath(os.environ.get("MOSAIK_SRC", "/repo"))
+        frames = traceback.extract_tb(e.__traceback__)
+        inside = [f for f in frames if os.path.realpath(f.filename).startswith(os.path.join(src, "mosaik") + os.sep)]
+        if inside:
+            os.makedirs(os.path.join(VERIF, "replays"), exist_ok=True)
+            path = os.path.join(VERIF, "replays", f"{pid}-{tier}-{seed}.json")
+            write_json(path, {"property": pid, "tier": tier, "seed": seed, "kind": "no-failing-input-found",
+                              "no_longer_checks": [f"the implementation raised {type(e).__name__}: {str(e)[:200]} inside {inside[-1].filename}:{inside[-1].lineno} "
+                                                   f"({inside[-1].name}) while the check was exercising it; the harness expects no such exception there"],
+                              "traceback": traceback.format_exception(type(e), e, e.__traceback__)[-12:]})
+            ev = {"property_id": pid, "tier": tier, "seed": seed, "level": "proof",
+                  "coverage": {"obligations": max(1, len(o.audit.get("theorems", []))), "discharged": 0, "checker_cmd": "cd lean && lake build", "trusted_base": TRUSTED_BASE,
+                               "note": "the run was cut short by an exception raised inside the implementation"},
+                  "assumptions": [], "wall_s": round(time.time() - o.t0, 2), "violations": 1}
+            try:
+                write_json(os.path.join(VERIF, "evidence", f"{pid}.json"), ev)
+            except Exception:
+                pass
+            print(f"VIOLATION property={pid} replay={path} no-failing-input-found")
+            return 1
         print(f"[{pid}] harness crashed")
         return 2
 
